@@ -40,56 +40,56 @@ type Outcome struct {
 }
 
 type Engine struct {
-	prog        *ssa.Program
-	fset        *token.FileSet
-	fns         map[string]*ssa.Function
-	names       *nameTables
-	baseExt     map[string]bool
-	sweepOnly   bool
-	inGlobal    bool
-	allocIdx    map[*ssa.Alloc]int
-	curNames    map[string]*fnInfo
-	smt         *SMT
-	spec        *SpecFile
-	flat        flatCache
-	strs        map[string]string
-	strVals     map[string]string
-	tconsts     map[string]string
-	tconstTypes map[string]types.Type
-	heapSorts   map[string]string
-	obls        []*Oblig
-	ncell       int
-	nq          int
-	curProp     string
-	unit        string
-	rootPkg     *types.Package
-	repoPkgs    []*types.Package
-	safetyOn    bool
-	warnings    []string
-	abstracted  map[string]int
-	havocCalls  map[string]int
-	inlined     map[string]int
-	extUsed     map[string]int
-	paths       int
-	maxPaths    int
-	trace       bool
-	c10units    map[string]bool
-	lockLess    map[string]map[string]bool
-	specErrs    []string
-	axiomTexts  []string
-	unitStats   []string
-	modCache    map[*ssa.BasicBlock]*modSet
-	sharedCells map[*Cell]bool
-	blockVisits map[string]int
-	pdomCache   map[*ssa.Function]map[*ssa.BasicBlock]*ssa.BasicBlock
-	noMerge     bool
-	merges      int
-	nchoice     int
-	closedCls   map[string]bool
-	mutGlobals  map[string]bool
-	freshObjs   []string
-	fnModCache  map[*ssa.Function]*modSet
-	ifaceImplCache map[string]bool
+	prog             *ssa.Program
+	fset             *token.FileSet
+	fns              map[string]*ssa.Function
+	names            *nameTables
+	baseExt          map[string]bool
+	sweepOnly        bool
+	inGlobal         bool
+	allocIdx         map[*ssa.Alloc]int
+	curNames         map[string]*fnInfo
+	smt              *SMT
+	spec             *SpecFile
+	flat             flatCache
+	strs             map[string]string
+	strVals          map[string]string
+	tconsts          map[string]string
+	tconstTypes      map[string]types.Type
+	heapSorts        map[string]string
+	obls             []*Oblig
+	ncell            int
+	nq               int
+	curProp          string
+	unit             string
+	rootPkg          *types.Package
+	repoPkgs         []*types.Package
+	safetyOn         bool
+	warnings         []string
+	abstracted       map[string]int
+	havocCalls       map[string]int
+	inlined          map[string]int
+	extUsed          map[string]int
+	paths            int
+	maxPaths         int
+	trace            bool
+	c10units         map[string]bool
+	lockLess         map[string]map[string]bool
+	specErrs         []string
+	axiomTexts       []string
+	unitStats        []string
+	modCache         map[*ssa.BasicBlock]*modSet
+	sharedCells      map[*Cell]bool
+	blockVisits      map[string]int
+	pdomCache        map[*ssa.Function]map[*ssa.BasicBlock]*ssa.BasicBlock
+	noMerge          bool
+	merges           int
+	nchoice          int
+	closedCls        map[string]bool
+	mutGlobals       map[string]bool
+	freshObjs        []string
+	fnModCache       map[*ssa.Function]*modSet
+	ifaceImplCache   map[string]bool
 	neverClosedSends map[string]int
 }
 
@@ -965,6 +965,15 @@ func (e *Engine) binop(st *State, fr *Frame, x *ssa.BinOp) Val {
 			c = mkEq(a.L[0], "nil")
 			if len(b.L) == 4 && b.L[0] != "nil" {
 				c = mkEq(b.L[0], "nil")
+			}
+		}
+		if isString(a.T) && len(a.L) == 1 && len(b.L) == 1 {
+			// comparison with the empty string is a statement about the length (s == "" <=> len(s) == 0)
+			empty := e.strConst("")
+			if b.L[0] == empty {
+				st.assume(mkEq(mkEq(a.L[0], empty), mkEq(mkApp("strlen", a.L[0]), "0")))
+			} else if a.L[0] == empty {
+				st.assume(mkEq(mkEq(b.L[0], empty), mkEq(mkApp("strlen", b.L[0]), "0")))
 			}
 		}
 		if x.Op == token.NEQ {
